@@ -93,7 +93,7 @@ Section RespondC.
         match r_reason r with
         | NotFound => Some (forward_c c qname qname qt [])
         | Rewritten =>
-            if negb (is_nil (r_canon r)) && is_nil (r_ips r) then
+            if via_upstream r (covered_flag sort enabled tbl qname qt) then
               Some (forward_c c (r_canon r) qname qt [RR_CNAME qname (r_canon r)])
             else Some (c, (false, local_response r qname qt))
         end
